@@ -1000,6 +1000,29 @@ def completed_in_place_histories(ctx):
                                 break
 
 
+def default_set_of_orders(ctx):
+    """A DEFAULT component of SET OF type: the value equal to the default as a SET (same members, any insertion order)
+    is the default and is left out by DER and CER whatever the order it was filled in (finding F68: the comparison with
+    the default is an ordered one, so {2,1} against DEFAULT {1,2} is written out - in sorted form, i.e. as {1,2})."""
+    from pyasn1.type import univ as _u, namedtype as _nt
+    from pyasn1.codec.der import encoder as _der
+    from pyasn1.codec.cer import encoder as _cer
+    import itertools
+    for members in ((1, 2), (3, 1, 2), (5, 5, 6)):
+        d = _u.SetOf(componentType=_u.Integer()); d.clear(); d.extend(members)
+        for outer in (_u.Sequence, _u.Set):
+            T = outer(componentType=_nt.NamedTypes(_nt.DefaultedNamedType('s', d), _nt.NamedType('k', _u.Integer().subtype(implicitTag=__import__('pyasn1.type.tag', fromlist=['x']).Tag(128, 0, 1)))))
+            outs = {}
+            for perm in sorted(set(itertools.permutations(members))):
+                v = T.clone(); v['k'] = 9; v['s'].clear(); v['s'].extend(perm)
+                ctx.case(('default-setof-order', outer.__name__, members, perm), True)
+                ctx.stats['DEFAULT SET OF filled in every order'] += 1
+                outs[perm] = (bytes(_der.encode(v)).hex(), bytes(_cer.encode(v)).hex())
+            if len(set(outs.values())) > 1:
+                ctx.prop_fail('DER/CER of a record whose DEFAULT SET OF member holds the default\'s members depends on the order they were added in',
+                              {'outer': outer.__name__, 'default': list(members), 'encodings_by_order': {str(list(k)): v for k, v in outs.items()}}, finding='F68')
+
+
 def run(ctx):
     ctx.rule = ('random (type, value) of the universe (depth<=3) plus targeted SET/SET OF/DEFAULT cases and SEQUENCE/SET types with DEFAULT components of SEQUENCE OF / SEQUENCE type (multi-member defaults; values equal to the default, absent, reordered, different); per case one plain object and one '
                 'built by a random construction history (random assignment order by name/position/tag, SET OF members shuffled, DEFAULT '
@@ -1022,6 +1045,7 @@ def run(ctx):
         for rep in range(2 if base_desc(c.T)[0] in CONSTRUCTED else 1):
             check_case(ctx, c, wild=(n % 5 == 4 and rep == 1), exprs=exprs, meta=meta)
     completed_in_place_histories(ctx)
+    default_set_of_orders(ctx)
     ctx.sample({'type': jsonable(cases[0].T), 'value': jsonable(cases[0].v)})
     if exprs:
         codes = core.coq_codes('c04', 'Model.Enc Model.Dec Model.Obs', exprs)
